@@ -43,7 +43,7 @@ pub trait Prop: Sync {
     fn vacuity(&self, tier: Tier, r: &ShardResult) -> Vec<String>;
     fn wall_cap(&self, tier: Tier) -> Duration {
         match tier {
-            Tier::Quick => Duration::from_secs(50),
+            Tier::Quick => Duration::from_secs(150),
             Tier::Thorough => Duration::from_secs(1500),
         }
     }
